@@ -55,7 +55,8 @@ type msgWriter struct {
 
 	mu      *mu
 	writeMu *mu
-	closed  int32 // atomic: 1 once Close has been called for the current message
+	closed  int32         // atomic: 1 once Close has been called for the current message
+	seq     atomic.Uint64 // number of the current message, see msgWriterHandle
 
 	ctx    context.Context
 	opcode opcode
@@ -99,11 +100,42 @@ func (c *Conn) writer(ctx context.Context, typ MessageType) (io.WriteCloser, err
 	if err != nil {
 		return nil, err
 	}
-	return c.msgWriter, nil
+	return &msgWriterHandle{mw: c.msgWriter, seq: c.msgWriter.seq.Load()}, nil
+}
+
+// msgWriterHandle is what Writer hands out. The connection has a single msgWriter
+// that is reset for every message, so the handle remembers which message it was
+// handed out for: used after that message is done - a deferred Close behind an
+// explicit one, say - it must not act on the message another caller has open by then.
+type msgWriterHandle struct {
+	mw  *msgWriter
+	seq uint64
+}
+
+// stale reports whether the handle's message is over. closed is read before seq, and
+// reset advances seq before it clears closed: a handle that sees the writer open
+// again also sees that the message is no longer its own.
+func (w *msgWriterHandle) stale() bool {
+	return atomic.LoadInt32(&w.mw.closed) == 1 || w.mw.seq.Load() != w.seq
+}
+
+func (w *msgWriterHandle) Write(p []byte) (int, error) {
+	if w.stale() {
+		return 0, errWriterClosed
+	}
+	return w.mw.Write(p)
+}
+
+func (w *msgWriterHandle) Close() error {
+	if w.stale() {
+		return fmt.Errorf("failed to close writer: %w", errWriterAlreadyClosed)
+	}
+	return w.mw.Close()
 }
 
 func (c *Conn) write(ctx context.Context, typ MessageType, p []byte) (int, error) {
-	mw, err := c.writer(ctx, typ)
+	mw := c.msgWriter
+	err := mw.reset(ctx, typ)
 	if err != nil {
 		return 0, err
 	}
@@ -137,6 +169,7 @@ func (mw *msgWriter) reset(ctx context.Context, typ MessageType) error {
 	mw.ctx = ctx
 	mw.opcode = opcode(typ)
 	mw.flate = false
+	mw.seq.Add(1)
 	atomic.StoreInt32(&mw.closed, 0)
 
 	mw.trimWriter.reset()
